@@ -345,6 +345,41 @@ def _normalize(ctx):
             naive = [b for term, b in o.assumptions]
             rep.check('R12.5', 'normalize_time:naive-identity', True,
                       'a naive datetime is returned as the same object')
+    # the same after an earlier call: what was learnt about one datetime
+    # (its zone's offset at that instant) says nothing about the next one -
+    # a named zone has another offset in the other half of the year
+    rep.rule('R12.7', 'normalize_time keeps no state: after normalising '
+             'another datetime (same zone object, other offset) the answer '
+             'is still the naive UTC instant')
+    t0 = T('sym', 'earlier_timestamp')
+
+    def thunk_h(interp):
+        try:
+            interp.call(f, [t0])
+        except AbsRaise:
+            pass
+        return interp.call(f, [t])
+
+    def extra_h(interp):
+        interp.types[t] = 'datetime'
+        interp.types[t0] = 'datetime'
+    import zoneinfo
+    zone = zoneinfo.ZoneInfo('Europe/Berlin')
+    winter = dt.datetime(2030, 1, 15, 12, 0, 0, 250000, tzinfo=zone)
+    summer = dt.datetime(2030, 7, 15, 12, 0, 0, tzinfo=zone)
+    fixed = dt.datetime(2030, 7, 15, 12, 0, tzinfo=tz(2))
+    naive = dt.datetime(2030, 7, 15, 12, 0)
+    try:
+        outcomes, _i = extract(world, thunk_h, setup=_setup(extra_h))
+        grid_compare(rep, 'R12.7', 'normalize_time[after an earlier call]',
+                     'earlier datetime x datetime (named zone in both '
+                     'halves of the year, fixed offset, naive)', outcomes,
+                     {t0: (winter, summer, fixed, naive),
+                      t: (winter, summer, fixed, naive)}, oracle,
+                     hooks=[_hook], value_eq=same_dt)
+    except AnalysisError as e:
+        rep.undecided('R12.7', 'normalize_time[after an earlier call]',
+                      str(e))
     g = world.func(MOD, 'parse_isotime')
     s = T('sym', 'timestr')
     for kind in ('str', 'other'):
